@@ -30,14 +30,19 @@ ASSUMPTIONS = ["Python integers / model.tower.Ext arithmetic is the reference fo
                "are only given points of the order-r subgroup; basic/slide/dig/big/cof/frb/group law also get other twist "
                "points"]
 
-PARTS = [("BN_P256", "asan256"), ("SM9_P256", "asan256"), ("B12_P381", "asan381")]
+SWEEP = [("BN_P382", "asan382"), ("BN_P446", "asan446"), ("B12_P377", "asan377"), ("BN_P638", "asan638"),
+         ("B12_P638", "asan638")]
 
 
 def parts(tier):
     q = tier == "quick"
-    return [dict(part="BN_P256", cfg="asan256", shards=6 if q else 8),
-            dict(part="SM9_P256", cfg="asan256", shards=5 if q else 8),
-            dict(part="B12_P381", cfg="asan381", shards=5 if q else 8)]
+    ps = [dict(part="BN_P256", cfg="asan256", shards=6 if q else 8),
+          dict(part="SM9_P256", cfg="asan256", shards=5 if q else 8),
+          dict(part="B12_P381", cfg="asan381", shards=5 if q else 8)]
+    if not q:
+        # sweep over the other field sizes that carry a quadratic twist (thorough tier only)
+        ps += [dict(part=nm, cfg=cfg, shards=4) for nm, cfg in SWEEP]
+    return ps
 
 
 def pd(pt):
@@ -251,6 +256,12 @@ def run(ctx, part):
                               "dispatch": {m: R.target(m) for m in ("ep2_add", "ep2_dbl", "ep2_mul", "ep2_mul_pre",
                                                                      "ep2_mul_fix", "ep2_mul_sim", "ep2_mul_big")}}})
     notbuilt = set()
+    sweep = part in [nm for nm, _ in SWEEP]
+
+    def N(q, t):
+        """case count; the sweep curves (thorough tier, larger fields, slower model) get a reduced random workload"""
+        v = ctx.n(q, t)
+        return max(1, v // 8) if sweep else v
 
     def has(fn):
         if R.has(fn):
@@ -495,12 +506,12 @@ def run(ctx, part):
                 for inf in (False, True):
                     if mine():
                         dbl_case(fn, ra, alias, inf)
-    for _ in range(ctx.n(480, 6000)):
+    for _ in range(N(480, 6000)):
         fn = rng.choice(addfns)
         tg = tags_for(fn)
         add_case(fn, rng.choice(["gen", "gen", "gen", "eq", "opp", "infP", "infQ", "infPQ"]), rng.choice(tg), rng.choice(tg),
                  rng.randrange(5))
-    for _ in range(ctx.n(180, 2000)):
+    for _ in range(N(180, 2000)):
         fn = rng.choice(dblfns)
         dbl_case(fn, rng.choice(tags_for(fn.replace("dbl", "add"))), rng.randrange(2), rng.random() < 0.1)
 
@@ -532,7 +543,7 @@ def run(ctx, part):
                 for inf in (False, True):
                     if mine():
                         unary_case(fn, ra, alias, inf)
-    for _ in range(ctx.n(135, 1500)):
+    for _ in range(N(135, 1500)):
         unary_case(rng.choice(["ep2_neg", "ep2_norm"]), rng.choice("APJ"), rng.randrange(2), rng.random() < 0.1)
 
     def norm_sim_case(cnt, inplace, with_inf):
@@ -575,9 +586,10 @@ def run(ctx, part):
             for inplace in (0, 1):
                 if mine():
                     norm_sim_case(cnt, inplace, False)
-        if mine():
-            norm_sim_case(3, 0, True)
-        for _ in range(ctx.n(36, 400)):
+        for inplace in (0, 1):
+            if mine():
+                norm_sim_case(3, inplace, True)
+        for _ in range(N(36, 400)):
             norm_sim_case(rng.randrange(1, 9), rng.randrange(2), False)
 
     def cmp_case(rel, ra, rb):
@@ -612,7 +624,7 @@ def run(ctx, part):
             for rb in "APJ":
                 if mine():
                     cmp_case(rel, ra, rb)
-    for _ in range(ctx.n(120, 1500)):
+    for _ in range(N(120, 1500)):
         cmp_case(rng.choice(["eq", "eq", "opp", "ne", "inf-fin", "fin-inf", "inf-inf"]), rng.choice("APJ"), rng.choice("APJ"))
 
     def oncurve_case(kind, ra):
@@ -641,7 +653,7 @@ def run(ctx, part):
         for ra in "APJ":
             if mine():
                 oncurve_case(kind, ra)
-    for _ in range(ctx.n(90, 1000)):
+    for _ in range(N(90, 1000)):
         oncurve_case(rng.choice(["on", "off-y", "off-x"]), rng.choice("APJ"))
 
     # =========================================================================== scalar multiplication
@@ -691,7 +703,7 @@ def run(ctx, part):
             mul_case(fn, "rand", rng.randrange(n), "sub", alias=1)
         if mine():
             mul_case(fn, "neg", -rng.randrange(n), "G", alias=1)
-    for _ in range(ctx.n(510, 6000)):
+    for _ in range(N(510, 6000)):
         fn = rng.choice(mulfns)
         scls, k = rand_scalar(env)
         pcls = rng.choice(["G", "sub", "sub", "subN", "subN"] + ([] if fn in SUBONLY else ["tw", "tw", "twN"]))
@@ -715,7 +727,7 @@ def run(ctx, part):
         for scls, k in SC:
             if mine():
                 gen_case(scls, k)
-        for _ in range(ctx.n(75, 800)):
+        for _ in range(N(75, 800)):
             gen_case(*rand_scalar(env))
 
     def dig_case(d, pcls, alias=0):
@@ -740,7 +752,7 @@ def run(ctx, part):
             for pcls in ("G", "sub", "subN", "tw", "inf"):
                 if mine():
                     dig_case(d, pcls)
-        for _ in range(ctx.n(75, 800)):
+        for _ in range(N(75, 800)):
             dig_case(rng.getrandbits(rng.choice([3, 17, 64, 64])), rng.choice(["G", "sub", "subN", "subN", "tw", "twN"]),
                      int(rng.random() < 0.2))
 
@@ -790,9 +802,9 @@ def run(ctx, part):
         # the hostile list is split over the shards; every shard builds its own table
         mineSC = [sc for i, sc in enumerate(SC) if ctx.mine(i + fi)]
         fi += 1
-        fix_family(v, env.G, "G", mineSC + [rand_scalar(env) for _ in range(ctx.n(18, 300))])
+        fix_family(v, env.G, "G", mineSC + [rand_scalar(env) for _ in range(N(18, 300))])
         fix_family(v, rng.choice(S), "sub", [sc for i, sc in enumerate(SC) if ctx.mine(i + fi + 2) and i % 3 == 0] +
-                   [rand_scalar(env) for _ in range(ctx.n(18, 300))])
+                   [rand_scalar(env) for _ in range(N(18, 300))])
         if ctx.mine(fi):
             fix_family(v, epx.Base(E, None), "inf", [("zero", 0), ("one", 1), ("rand", rng.randrange(n))])
 
@@ -819,7 +831,7 @@ def run(ctx, part):
         for alias in (1, 2):
             if mine():
                 sim_case(fn, "gen", "rand", rng.randrange(n), "rand", rng.randrange(n), alias=alias)
-    for _ in range(ctx.n(330, 4000)):
+    for _ in range(N(330, 4000)):
         fn = rng.choice(simfns)
         kc, k = rand_scalar(env)
         mc, m = rand_scalar(env)
@@ -855,7 +867,7 @@ def run(ctx, part):
         for qcls in ("inf", "G", "subN"):
             if mine():
                 simgen_case("rand", rng.randrange(n), "rand", rng.randrange(n), qcls)
-        for _ in range(ctx.n(60, 800)):
+        for _ in range(N(60, 800)):
             kc, k = rand_scalar(env)
             mc, m = rand_scalar(env)
             simgen_case(kc, k, mc, m, rng.choice(["sub", "sub", "G", "subN"]))
@@ -902,7 +914,7 @@ def run(ctx, part):
             for sp in (None, "all-zero", "same-point", "with-inf"):
                 if mine():
                     simdig_case(cnt, sp)
-        for _ in range(ctx.n(45, 500)):
+        for _ in range(N(45, 500)):
             simdig_case(rng.randrange(1, 7))
 
     def simlot_case(cnt, special=None):
@@ -961,7 +973,7 @@ def run(ctx, part):
             for sp in ("hostile", "same-point", "cancel", "with-inf", "zero-scalar"):
                 if mine():
                     simlot_case(cnt, sp)
-        for _ in range(ctx.n(12, 200)):
+        for _ in range(N(12, 200)):
             simlot_case(rng.choice([1, 2, 3, 5, 9, 10, 11, 13]), rng.choice([None, None, "hostile"]))
 
     # =========================================================================== Frobenius
@@ -1028,9 +1040,9 @@ def run(ctx, part):
                 frb_tw_case(rep)
         if small and mine():
             frb_tw_case("A", "small")
-        for _ in range(ctx.n(120, 1200)):
+        for _ in range(N(120, 1200)):
             frb_sub_case(rng.choice([1, 1, 2, 2, 3, 3, 4, 5, 7]), rng.choice("AAPJ"), int(rng.random() < 0.2))
-        for _ in range(ctx.n(18, 200)):
+        for _ in range(N(18, 200)):
             T.append(epx.Base(E, M.rand_point2(rng)))
             frb_tw_case(rng.choice("AAP"))
         # infinity
@@ -1115,12 +1127,149 @@ def run(ctx, part):
                     cof_case(pcls, rep)
         if mine():
             cof_case("tw", "A", alias=1)
-        for _ in range(ctx.n(42, 500)):
+        for _ in range(N(42, 500)):
             cof_case(rng.choice(["tw", "tw", "tw", "sub"] + (["small", "small+sub"] if small else [])), rng.choice(["A", "A", NAT]),
                      int(rng.random() < 0.15))
-        for _ in range(ctx.n(9, 100)):
+        for _ in range(N(9, 100)):
             cof_hom_case()
+
+    # =========================================================================== small utilities
+    def misc_infty(rep, inf):
+        def body():
+            pc, P = anypoint()
+            if inf:
+                P = None
+            key = "ep2_is_infty|%s|%s" % ("inf" if inf else "fin", rep)
+            da = env.wr(A, P, rep)
+            if not ctx.begin(key, {"P": pd(P), "a": da}, nontrivial=P is not None):
+                return
+            res = R.call("ep2_is_infty", A)
+            ctx.check((not res.caught) and bool(res.i) == (P is None), key + "|value", {"got": res.i})
+            e.poison(C)
+            res = R.call("ep2_set_infty", C)
+            env.judge(C, None, res, what="set_infty")
+        guard(body)
+
+    def misc_rhs():
+        def body():
+            x = F2.rand(rng) if rng.random() < 0.8 else rng.choice([(0, 0), (1, 0), (0, 1), (M.p - 1, M.p - 1)])
+            key = "ep2_rhs|x"
+            if not ctx.begin(key, {"x": [hx(x[0]), hx(x[1])]}, nontrivial=True):
+                return
+            fx, fo = R.fpx_new(2, list(x)), R.fpx_new(2)
+            alias = rng.random() < 0.3
+            res = R.call("ep2_rhs", fx if alias else fo, fx)
+            got, canon = R.fpx_get(fx if alias else fo, 2)
+            exp = F2.add(F2.mul(F2.mul(x, x), x), M.b2)
+            ctx.check((not res.caught) and F2.eq(tuple(got), exp) and canon, key + "|value", {"got": [hx(v) for v in got]})
+            R.free(fx)
+            R.free(fo)
+        guard(body)
+
+    def misc_blind(rep, alias):
+        def body():
+            pc, P = anypoint()
+            key = "ep2_blind|%s|alias%d" % (rep, alias)
+            da = env.wr(A, P, rep)
+            if not ctx.begin(key, {"P": pd(P), "a": da}, nontrivial=True):
+                return
+            e.poison(C)
+            out = A if alias else C
+            res = R.call("ep2_blind", out, A)
+            env.judge(out, P, res)
+        guard(body)
+
+    def misc_rand():
+        def body():
+            key = "ep2_rand|"
+            if not ctx.begin(key, {}, nontrivial=True):
+                return
+            e.poison(C)
+            res = R.call("ep2_rand", C)
+            if res.caught:
+                ctx.check(False, key + "|unexpected-error", {"err": res.err})
+                return
+            pt = e.get(C, F2)[0]
+            ctx.check(pt is not None and E.on_curve(pt) and E.mul(n, pt) is None, key + "|not-in-subgroup", {"P": pd(pt)})
+        guard(body)
+
+    def misc_tab(wd, pcls):
+        def body():
+            base, rep = pick_point(pcls)
+            cnt = 1 if wd <= 2 else 1 << (wd - 2)
+            key = "ep2_tab|w%d|%s" % (wd, pcls)
+            da = env.wr(A, base.P, rep)
+            R.poison = rng.randrange(1, 256)
+            tab = e.new(cnt)
+            try:
+                if not ctx.begin(key, {"P": pd(base.P), "a": da, "w": wd}, nontrivial=True):
+                    return
+                sa = env.snap(A)
+                res = R.call("ep2_tab", tab, A, wd)
+                if res.caught:
+                    ctx.check(False, key + "|unexpected-error", {"err": res.err})
+                    env.canary()
+                    return
+                for i in range(cnt):
+                    try:
+                        pt = e.get(e.at(tab, i), F2)[0]
+                    except (ValueError, ZeroDivisionError) as ex:
+                        ctx.fail(key + "|bad-tag", repr(ex))
+                        continue
+                    ctx.check(E.eq(pt, base.mul(2 * i + 1)), key + "|value", {"i": i, "got": pd(pt)})
+                env.unchanged(A, sa)
+            finally:
+                R.free(tab)
+        guard(body)
+
+    if has("ep2_is_infty") and has("ep2_set_infty"):
+        for rep in "APJ":
+            for inf in (0, 1):
+                if mine():
+                    misc_infty(rep, inf)
+    if has("ep2_rhs"):
+        for _ in range(N(15, 300)):
+            misc_rhs()
+    if has("ep2_blind"):
+        for rep in ("A", NAT):
+            for alias in (0, 1):
+                if mine():
+                    misc_blind(rep, alias)
+        for _ in range(N(10, 200)):
+            misc_blind(rng.choice(["A", NAT]), rng.randrange(2))
+    if has("ep2_rand"):
+        for _ in range(N(3, 60)):
+            misc_rand()
+    if has("ep2_tab"):
+        for wd in (2, 3, 4, 5, 6):
+            for pcls in ("G", "sub", "subN", "tw"):
+                if mine():
+                    misc_tab(wd, pcls)
+    for fn in ("ep2_mul_pre_yaowi", "ep2_mul_fix_yaowi", "ep2_mul_pre_nafwi", "ep2_mul_fix_nafwi"):
+        has(fn)      # declared in relic_epx.h; recorded as not built when absent
 
     ctx.note("functions_exercised", sorted(R.fn_seen))
     ctx.note("functions_not_built", sorted(notbuilt))
     ctx.note("error_codes_seen", {str(k): v for k, v in R.err_codes.items()})
+
+
+def finish(cov):
+    """function-coverage accounting against the API inventory of the design phase"""
+    import json
+    import os
+    inv = os.path.join(os.path.dirname(os.path.dirname(os.path.dirname(os.path.abspath(__file__)))), "design",
+                       "api_inventory.json")
+    try:
+        F = json.load(open(inv))["functions"]
+    except (OSError, ValueError, KeyError):
+        return
+    scope = sorted(k for k, v in F.items() if v.get("property") == "C11")
+    seen = set(cov.get("functions_exercised", []))
+    nb = set(cov.get("functions_not_built", []))
+    unc = [f for f in scope if f not in seen and f not in nb]
+    cov["functions_in_scope"] = len(scope)
+    cov["functions_in_scope_exercised"] = len([f for f in scope if f in seen])
+    cov["functions_uncovered"] = {"ep2": [f for f in unc if f.startswith("ep2_")],
+                                  "ep3_ep4_ep8": len([f for f in unc if not f.startswith("ep2_")]),
+                                  "why": "curves over cubic, quartic and octic extensions (ep3/ep4/ep8, other field sizes) have no "
+                                         "model in this module; see the final report of the module author"}
